@@ -133,6 +133,63 @@ Section ResolverProofs.
   Qed.
 End ResolverProofs.
 
+(* attach_handler histories: the handler in force for a method is the one attached LAST for it;
+   attaching for another method changes nothing about the resolution of a DID *)
+Lemma lookup_attach_same t m h : lookup (attach_handler t m h) m = Some h.
+Proof. unfold lookup, attach_handler. cbn [find fst snd]. rewrite Z.eqb_refl. reflexivity. Qed.
+Lemma lookup_attach_other t m h m' : m' <> m -> lookup (attach_handler t m h) m' = lookup t m'.
+Proof.
+  intros N. unfold lookup, attach_handler. cbn [find fst snd].
+  destruct (Z.eqb_spec m m') as [E|_]; [congruence|reflexivity].
+Qed.
+Lemma table_of_rev hist : table_of hist = rev hist.
+Proof.
+  unfold table_of. rewrite <- (app_nil_r (rev hist)). generalize (@nil (Z * Z)) as acc.
+  induction hist as [|[m h] r IH]; intros acc; cbn [fold_left rev fst snd]; [reflexivity|].
+  rewrite IH. unfold attach_handler. rewrite <- app_assoc. reflexivity.
+Qed.
+Lemma table_of_snoc hist m h : table_of (hist ++ [(m, h)]) = attach_handler (table_of hist) m h.
+Proof. unfold table_of. rewrite fold_left_app. reflexivity. Qed.
+Lemma lookup_none_iff t m : lookup t m = None <-> (forall e, In e t -> fst e <> m).
+Proof.
+  unfold lookup. induction t as [|[m' h'] r IH]; cbn [find fst snd].
+  - split; [intros _ e []|reflexivity].
+  - destruct (Z.eqb_spec m' m) as [E|N].
+    + split; [discriminate|]. intros A. exfalso. apply (A (m', h')); [left; reflexivity|exact E].
+    + rewrite IH. split.
+      * intros A e [<-|I]; [exact N|apply A; exact I].
+      * intros A e I. apply A. right. exact I.
+Qed.
+Lemma lookup_app_skip a b m : (forall e, In e a -> fst e <> m) -> lookup (a ++ b) m = lookup b m.
+Proof.
+  intros A. unfold lookup. induction a as [|[m' h'] r IH]; cbn [app find fst snd]; [reflexivity|].
+  destruct (Z.eqb_spec m' m) as [E|_].
+  - exfalso. apply (A (m', h')); [left; reflexivity|exact E].
+  - apply IH. intros e I. apply A. right. exact I.
+Qed.
+Theorem last_attachment_wins before after m h :
+  (forall e, In e after -> fst e <> m) ->
+  lookup (table_of (before ++ (m, h) :: after)) m = Some h.
+Proof.
+  intros A. rewrite table_of_rev, rev_app_distr. cbn [rev]. rewrite <- app_assoc. cbn [app].
+  rewrite lookup_app_skip by (intros e I; apply A; apply in_rev; exact I).
+  apply (lookup_attach_same (rev before) m h).
+Qed.
+Theorem never_attached_unsupported hist m :
+  lookup (table_of hist) m = None <-> (forall e, In e hist -> fst e <> m).
+Proof.
+  rewrite table_of_rev, lookup_none_iff. split; intros A e I; apply A; [apply -> in_rev|apply <- in_rev]; exact I.
+Qed.
+Theorem attach_other_method_irrelevant accepts answer t m h d :
+  r_method d <> m -> resolve (attach_handler t m h) accepts answer d = resolve t accepts answer d.
+Proof. intros N. unfold resolve. rewrite lookup_attach_other by exact N. reflexivity. Qed.
+Theorem attach_same_method_replaces accepts answer t m h d :
+  r_method d = m ->
+  resolve (attach_handler t m h) accepts answer d =
+    if accepts h d then (match answer h d with Some doc => ROk doc | None => RErr EHandler end, [(h, d)])
+    else (RErr EParse, []).
+Proof. intros E. unfold resolve. rewrite E, lookup_attach_same. reflexivity. Qed.
+
 (* did:jwk expansion: a valid document with a single method carrying exactly the encoded key,
    reachable through the four relationships that reference it *)
 Local Opaque Z.eqb.
